@@ -270,4 +270,22 @@ MUTATIONS += [
     dict(id="q-outer-reshape", file=TNODES, old="        x = x1 * x2  # (F, K1, K2, ..., Ki1, Ki2, ..., Kn)\n        x = x.view(self.num_folds, *self.shape)  # (F, K1, K2, ..., Ki1 * Ki2, ..., Kn)", new="        x = x1 * x2  # (F, K1, K2, ..., Ki1, Ki2, ..., Kn)\n        x = x.reshape(x.shape[0], *self.shape)  # (F, K1, K2, ..., Ki1 * Ki2, ..., Kn)", expect={}, quiet=True),
     dict(id="q-kron-perm-helper", file=OPS, old="    arity = max(sl1.arity, sl2.arity)\n    kron_sl = KroneckerLayer(sl1.num_input_units * sl2.num_input_units, arity=arity)", new="    arity = sl1.arity if sl1.arity >= sl2.arity else sl2.arity\n    kron_sl = KroneckerLayer(sl1.num_input_units * sl2.num_input_units, arity=arity)", expect={}, quiet=True),
     dict(id="q-einsum-rewrite-names", file="cirkit/backend/torch/optimization/parameters.py", old="    del reduce_idx[reduce_dim]\n", new="    reduce_idx = reduce_idx[:reduce_dim] + reduce_idx[reduce_dim + 1 :]\n", expect={}, quiet=True),
+    # ---- wave-2 rules
+    dict(id="r4g-lookup-permute", file="cirkit/backend/torch/circuits.py", old="x = in_graph[..., layer.scope_idx].permute(1, 0, 2)", new="x = in_graph[..., layer.scope_idx].permute(0, 1, 2)", expect={"C01": ["R4g:cirkit.backend.torch.circuits.LayerAddressBook.lookup:input"]}),
+    dict(id="r4g-output-transpose", file="cirkit/backend/torch/circuits.py", old="        y = y.transpose(0, 1)  # (B, num_outputs, num_units)", new="        y = y.transpose(0, 2)  # (B, num_outputs, num_units)", expect={"C01": ["R4g:cirkit.backend.torch.circuits.TorchCircuit._evaluate_layers:outputs"]}),
+    dict(id="r4l-sum-sample-layout", patch="seeded/C15a/patch.diff", expect={"C15": ["R4l:cirkit.backend.torch.layers.inner.TorchSumLayer:layout-sample"]}),
+    dict(id="r5c-index-range", patch="seeded/C14b/patch.diff", expect={"C14": ["R5c:cirkit.backend.torch.parameters.nodes.TorchIndexParameter:buffer:_indices"]}),
+    dict(id="r11d-global-max", patch="seeded/C12b/patch.diff", expect={"C12": ["R11d:cirkit.backend.torch.parameters.nodes.TorchSoftmaxParameter.forward"], "C01": ["R11d:"]}),
+    dict(id="r13c-hmm-position", patch="seeded/C12a/patch.diff", expect={"C12": ["R13c:cirkit.templates.pgms.hmm"], "C20": ["R13c:cirkit.templates.pgms.hmm"]}),
+    dict(id="r13c-hmm-zip", patch="seeded/C20a/patch.diff", expect={"C20": ["R13"], "C12": ["R13"]}),
+    dict(id="r13d-filtered-enumerate", patch="seeded/C11a/patch.diff", expect={"C11": ["R13d:cirkit.backend.torch.queries.IntegrateQuery.scopes_to_mask"]}),
+    dict(id="r8m-bound-check", patch="seeded/C11b/patch.diff", expect={"C11": ["R8m:cirkit.backend.torch.queries.IntegrateQuery.scopes_to_mask"]}),
+    dict(id="r7n-per-node", patch="seeded/C16a/patch.diff", expect={"C16": ["R7n:cirkit.templates.region_graph.graph.RegionGraph.is_structured_decomposable"]}),
+    dict(id="r7n-scope-identity", patch="seeded/C16b/patch.diff", expect={"C16": ["R7n:cirkit.templates.region_graph.graph.RegionGraph.dump"]}),
+    dict(id="r6e-cached-factory", patch="seeded/C18a/patch.diff", expect={"C18": ["R6e:cirkit.symbolic.registry.OperatorRegistry.from_default_rules"]}),
+    dict(id="r10h-stale-memo", patch="seeded/C20b/patch.diff", expect={"C20": ["R10h:cirkit.templates.logic.graph.LogicalCircuit"]}),
+    dict(id="r10g-evidence-cache", patch="seeded/C06b/patch.diff", expect={"C06": ["R10g:"], "C10": ["R10g:"]}),
+    dict(id="r3d-evidence-key", patch="seeded/C06a/patch.diff", expect={"C06": ["R3d:"], "C02": ["R3d:"]}),
+    dict(id="q-hmm-enumerate-ordering", file="cirkit/templates/pgms.py", old="    input_sl = input_factories[ordering[-1]](Scope([ordering[-1]]), num_latent_states)", new="    last_var = ordering[-1]\n    input_sl = input_factories[last_var](Scope([last_var]), num_latent_states)", expect={}, quiet=True),
+    dict(id="q-mask-enumerate-alias", file="cirkit/backend/torch/queries.py", old="        num_idxs = sum(len(s) for s in batch_integrate_vars)", new="        num_idxs = sum(map(len, batch_integrate_vars))", expect={}, quiet=True),
 ]
